@@ -28,8 +28,9 @@ Record tcase := {
 }.
 
 Definition all_variants : list jvariant :=
-  flat_map (fun a => flat_map (fun b => map (fun c => {| fix_endctx := a; fix_verify := b; fix_panic := c |})
-                                            [false; true]) [false; true]) [false; true].
+  flat_map (fun a => flat_map (fun b => flat_map (fun c => map (fun d =>
+    {| fix_endctx := a; fix_verify := b; fix_panic := c; fix_chunk := d |})
+    [false; true]) [false; true]) [false; true]) [false; true].
 
 Definition res_code (r : option result) : Z :=
   match r with Some RSuccess => 0 | Some RFailure => 1 | Some RKill => 2 | None => 3 end.
